@@ -2,12 +2,15 @@
 from __future__ import annotations
 
 import collections
+import copy
 import hashlib
 import json
 import os
 import re
 import shutil
 from typing import Any, Dict, List, Tuple
+
+from hypothesis import strategies as st
 
 from .. import gen, runner, valuecheck
 from ..refmodel import Model, load_doc
@@ -105,6 +108,37 @@ def in_process_history(ctx: Ctx, base: dict) -> dict:
     mini(evolve.evolved(small, 1, 3, allow={"E2", "E7", "E4"}), 4, (ctx.seed, "C17", "history"), lambda x: drawn.append(x))
     variants += [d for d, _ in drawn[1:]]
     rounds = (variants * 3)[: 9 if ctx.quick else 24]
+    # label-only variants (labels are judged against the model itself; the Python acceptance clause is not applied in this
+    # history): enumerations at the edges of what the metamodel allows - members at the bounds of the base type, members
+    # equal to the values a generator is likely to use as its "not a member" probe, closed and open
+    from ..refmodel import INT_MAX, INT_MIN, UINT_MAX
+    edge_variants = []
+    enums_small = [e["name"] for e in small["enumerations"]]
+    for k, ename in enumerate(enums_small):
+        for flavour in range(4):
+            d = copy.deepcopy(small)
+            e = [x for x in d["enumerations"] if x["name"] == ename][0]
+            base_t = e["type"]["name"]
+            taken = {v["value"] for v in e["values"]}
+            if base_t == "string":
+                extra = [["testCustomValue", "custom", ""], ["testCustomValue"], [e["values"][0]["value"] + "Custom", "x" * 40], ["testCustomValue", "12345"]][flavour]
+            else:
+                hi, lo = (INT_MAX, INT_MIN) if base_t == "integer" else (UINT_MAX, 0)
+                extra = [[12345, hi], [hi, lo], [12345, 12346, hi - 1], [12345, 12346]][flavour]
+            for j, v in enumerate(extra):
+                if v not in taken:
+                    e["values"].append({"name": f"VfEdge{flavour}{j}", "value": v})
+            was_open = bool(e.get("supportsCustomValues"))
+            now_open = {0: not was_open, 1: was_open, 2: True, 3: False}[flavour]
+            e.pop("supportsCustomValues", None)
+            if now_open:
+                e["supportsCustomValues"] = True
+            if evolve.schema_valid(d):
+                edge_variants.append(d)
+    pick: List[int] = []
+    mini(st.lists(st.integers(0, max(0, len(edge_variants) - 1)), min_size=6, max_size=6), 2, (ctx.seed, "C17", "edges"), lambda xs: pick.append(xs))
+    chosen = edge_variants if not ctx.quick else [edge_variants[i] for i in dict.fromkeys(pick[-1])] if edge_variants else []
+    rounds = rounds + chosen
 
     def child(rounds_):
         import gc
@@ -132,7 +166,7 @@ def in_process_history(ctx: Ctx, base: dict) -> dict:
         return {"vectors": 0, "rounds": 0, "note": "timed out (inconclusive)"}
     for f in res["findings"]:
         ctx.finding((f[0], f[1], "in-process-history"), f"{f[2]}: {f[3]}", {"round": f[2]})
-    return {"vectors": res["vectors"], "rounds": res["rounds"], "distinct_models": len(variants)}
+    return {"vectors": res["vectors"], "rounds": res["rounds"], "distinct_models": len(variants) + len(chosen), "enumeration_edge_variants": len(chosen)}
 
 
 def run(ctx: Ctx) -> None:
